@@ -108,6 +108,18 @@ def processOrig (f : σ → Msg → Inner σ ε) (st : St σ) (m : Msg) : St σ 
     else invoke f st m
   | .membership => if guardHit st m then (st, .ok []) else invoke f st m
 
+/-- A weaker key-bundle guard: compare only with the author's LATEST stored bundle (here: the most recently
+    registered one; the registry is newest-first). Every other kind as in `process`. -/
+def guardHitLatest (st : St σ) (m : Msg) : Bool :=
+  match m.kind with
+  | .keyBundle => decide (st.registry.find? (fun e => e.1 = m.author) = some (m.author, m.bundle))
+  | _ => guardHit st m
+
+def processLatestOnly (f : σ → Msg → Inner σ ε) (st : St σ) (m : Msg) : St σ × Outcome ε :=
+  if rejected m then (st, .err)
+  else if guardHitLatest st m then (st, .ok [])
+  else invoke f st m
+
 def run (f : σ → Msg → Inner σ ε) (st : St σ) : List Msg → St σ
   | [] => st
   | m :: ms => run f (process f st m).1 ms
